@@ -106,6 +106,9 @@ pub fn gen_safety(w: &mut Rng, has_tool: bool, has_base: bool, n_env: usize, tou
         return SafetySpec::touch(if mode == Mode::NoCheck { Mode::All } else { mode });
     }
     let dist = |w: &mut Rng| -> f32 {
+        if w.chance(0.03) {
+            return *w.pick(&[1e-6f32, 1e-4, 2.0, 10.0]);
+        }
         match w.below(6) {
             0 | 1 => 0.0,
             2 => 0.005,
@@ -182,6 +185,12 @@ pub fn gen_posture(w: &mut Rng, limits: &Option<([f64; 6], [f64; 6])>) -> [f64; 
     if w.chance(0.3) {
         q[1] = w.range_f64(0.8, 2.6) * if w.chance(0.5) { 1.0 } else { -1.0 };
         q[2] = w.range_f64(0.8, 2.8) * if w.chance(0.5) { 1.0 } else { -1.0 };
+    }
+    // special values now and then: exact multiples of pi, values several turns away, negative
+    // zero, a subnormal
+    if w.chance(0.12) {
+        let j = w.below(6);
+        q[j] = *w.pick(&[PI, -PI, 2.0 * PI, -2.0 * PI, 0.5 * PI, -0.5 * PI, 13.5, -13.5, -0.0, 0.0, 1e-300, 4.0 * PI]);
     }
     // numerically inside non-wrapping limits, not just modulo a full turn (an angle like -2.7 is
     // "compliant" with limits [-1.56, 3.62] because -2.7 + 2 pi is inside, but joint-space
@@ -406,6 +415,12 @@ pub fn add_environment(w: &mut Rng, cell: &mut CellSpec, anchor: &[f64; 6], k: &
         };
         cell.env.push(env);
         rels.push(rel);
+        // now and then the same body twice (identical mesh, identical pose)
+        if w.chance(0.06) {
+            let dup = cell.env[cell.env.len() - 1].clone();
+            cell.env.push(dup);
+            rels.push(rel);
+        }
     }
     rels
 }
